@@ -193,6 +193,8 @@ LEVEL_TEXT['C17'] += ' Added (unit simpleparse): Parser::simple_command offers e
 TECH['C17'] += ' + Parser::simple_command (loop invariant over a ghost monitor of the offers made)'
 LEVEL_TEXT['C18'] += ' Added (unit cmdline): Parser::command_line parses one list, takes at most the one newline that ends the line (plus the here-document contents after it) and looks at nothing beyond it.'
 TECH['C18'] += ' + Parser::command_line / newline_and_here_doc_contents (monitor of tokens peeked or taken beyond the newline)'
+LEVEL_TEXT['C02'] += ' Added (unit listparse): Parser::list hands out exactly the and-or lists parsed, in order, an item being asynchronous exactly when the separator right after it was `&`.'
+TECH['C02'] += ' + Parser::list (monitor of parsed and-or lists and separators)'
 
 def main():
     checks = []
